@@ -259,3 +259,113 @@ func checkC11Values(c *Ctx, n int) {
 		})
 	}
 }
+
+// C11, list stage: a slice option filled from its environment variable, which env-delim splits into
+// elements.  Each element is converted exactly as a command-line value would be: white space at
+// either end of an element belongs to it (a string keeps it, a number is rejected because of it),
+// an empty element is an element.
+func checkC11EnvList(c *Ctx, n int) {
+	r := c.Rng
+	codes := []string{"i8", "i32", "i64", "int", "u8", "u16", "u64", "uint", "f32", "f64", "dur", "str", "str"}
+	for i := 0; i < n; i++ {
+		code := codes[r.Intn(len(codes))]
+		base := 10
+		tags := []string{quoteTag("long", "opt"), quoteTag("env", "VFC11")}
+		if (code[0] == 'i' || code[0] == 'u') && r.Intn(3) == 0 {
+			base = []int{2, 8, 16, 36}[r.Intn(4)]
+			tags = append(tags, quoteTag("base", strconv.Itoa(base)))
+		}
+		var elems []string
+		for k := 1 + r.Intn(3); k > 0; k-- {
+			e := c11Text(c, code, base)
+			if _, ok := c11Denote(code, base, e); ok && r.Intn(4) == 0 {
+				// a well-formed element with a blank at an end
+				e = []string{" " + e, e + " ", " " + e + " ", "\t" + e}[r.Intn(4)]
+			}
+			elems = append(elems, e)
+		}
+		delim := ""
+		for _, d := range []string{",", ";", "|", ", "} {
+			if !strings.Contains(strings.Join(elems, ""), strings.TrimSpace(d)) && (d != ", " || r.Intn(4) == 0) {
+				delim = d
+				break
+			}
+		}
+		if delim == "" {
+			continue
+		}
+		text := strings.Join(elems, delim)
+		if text == "" {
+			continue
+		}
+		if delim == ", " {
+			// the delimiter itself ends in a blank: splitting at it leaves the elements as generated
+			elems = strings.Split(text, delim)
+		}
+		tags = append(tags, quoteTag("env-delim", delim))
+		sd := &StructDesc{Fields: []FieldDesc{{Name: "V", Exported: true, Kind: "v", Ty: "L" + code, Tag: strings.Join(tags, " ")}}}
+		cs := &Case{Name: "app", NsDelim: ".", EnvNsDelim: "_", Env: []EnvVar{{"VFC11", text}}, Opts: flags.PrintErrors}
+		cs.Build = []BuildOp{{Kind: "addgroup", Target: 1, Short: "Application Options", Struct: sd}}
+		cs.Ops = []Op{{Kind: "parse", Args: nil}}
+		cs.Description = fmt.Sprintf("environment value %q split at %q for a []%s option (base %d): %s", text, delim, code, base, describeOps(cs))
+		var wants []string
+		denotes := true
+		for _, e := range elems {
+			w, ok := c11Denote(code, base, e)
+			wants = append(wants, w)
+			denotes = denotes && ok
+		}
+		c.RunCases([]*Case{cs}, func(cr *CaseResult) {
+			c.classifyCase(cr)
+			if cr.Real == nil || cr.Real.dead {
+				return
+			}
+			var obs parseObs
+			for _, o := range parseBlocks(cr) {
+				obs = o
+			}
+			c.Class(fmt.Sprintf("c11/envlist: type=%s elements=%d denotes=%v", code, len(elems), denotes))
+			in := map[string]interface{}{"case": cs.Description, "env": "VFC11=" + text, "delimiter": delim, "elements": elems, "type": "[]" + code, "base": base}
+			fail := func(got, want string) {
+				in["case_file"] = c.saveCase(cr)
+				c.Check("environment-list-elements-are-converted-exactly-or-rejected", false, "C11:envlist", in, got, want)
+			}
+			got := fmt.Sprintf("%s %s type %d %q", obs.panic, obs.errKind, obs.errType, obs.errMsg)
+			switch {
+			case obs.panic != "":
+				fail(got, "normal return")
+				return
+			case !denotes:
+				if !(obs.errKind == "flags" && obs.errType == int(flags.ErrMarshal) && strings.Contains(obs.errMsg, "--opt")) {
+					fail(got, "ErrMarshal naming --opt: an element denotes no value of the type")
+					return
+				}
+			default:
+				if obs.errKind != "ok" {
+					fail(got, fmt.Sprintf("accepted: the elements denote %q", wants))
+					return
+				}
+				cr.Real.register()
+				fr, ok := cr.Real.fields["V"]
+				if !ok || !fr.val.IsValid() {
+					fail("field not reachable", fmt.Sprint(wants))
+					return
+				}
+				var stored []string
+				for k := 0; k < fr.val.Len(); k++ {
+					v := fr.val.Index(k)
+					if code == "dur" {
+						stored = append(stored, fmt.Sprint(v.Int()))
+					} else {
+						stored = append(stored, fmt.Sprint(v.Interface()))
+					}
+				}
+				if fmt.Sprintf("%q", stored) != fmt.Sprintf("%q", wants) {
+					fail(fmt.Sprintf("stored %q", stored), fmt.Sprintf("stored %q", wants))
+					return
+				}
+			}
+			c.Check("environment-list-elements-are-converted-exactly-or-rejected", true, "", nil, "", "")
+		})
+	}
+}
